@@ -34,7 +34,7 @@ Step(e) ==
       [] e.k = "Ret" -> UserRet
       [] e.k = "ResultEnd" -> UserResult /\ e.oc = (IF exc = "none" THEN "ok" ELSE "raise")
                                  /\ e.ek = (IF exc = "none" THEN "" ELSE IF exc = "cancel" THEN "cancel"
-                                            ELSE IF exc = "CBQ" THEN "inj" ELSE "s3")
+                                            ELSE IF exc \in {"CBQ", "SRC"} THEN "inj" ELSE "s3")
       [] e.k = "ShutdownEnd" -> UserShutdown
       [] e.k = "UCancelCall" -> UCancelCall
       [] e.k = "CancelBegin" -> CancelBegin
@@ -61,7 +61,10 @@ Step(e) ==
             IF e.op = "AbortMultipartUpload" THEN AnnAbortEnd(e.th, e.oc)
             ELSE IF e.op = "HeadObject" THEN e.th = "sub" /\ SubHeadEnd(IF e.oc = "ok" THEN "ok" ELSE "fault")
             ELSE /\ IsW(e.th) /\ OpOf(wcur[e.th]) = e.op
-                 /\ IF e.oc = "body-error" THEN WMainInterrupted(e.th) ELSE WMainEnd(e.th, e.oc)
+                 /\ IF e.oc = "body-error"
+                    THEN (IF e.srcf THEN WBodyFault(e.th) ELSE WMainInterrupted(e.th))
+                    ELSE WMainEnd(e.th, e.oc)
+      [] e.k = "SrcFault" -> e.th = "sub" /\ SubSrcFault
       [] e.k = "SetResult" -> IsW(e.th) /\ wcur[e.th] = Final /\ WOk(e.th) /\ status' = e.st
       [] e.k = "SetExc" -> /\ (IF e.th = "sub" THEN SubFail ELSE IsW(e.th) /\ WExc(e.th))
                            /\ status' = e.st
